@@ -202,7 +202,11 @@ func c18(args []string) {
 				id++
 				q.Add(qmsg(id))
 			}
-			emitQ(w, qEv{Ev: "addn", From: from, To: id, Len: held(q)})
+			h := held(q)
+			emitQ(w, qEv{Ev: "addn", From: from, To: id, Len: h})
+			if h > 4*n+8 {
+				break // the queue grows without bound (already reported by the length): going on would only take for ever
+			}
 			if snap != nil {
 				emitQ(w, qEv{Ev: "still", Was: snapIDs, Res: ids(snap)})
 			}
